@@ -21,15 +21,15 @@ Qed.
 Lemma rb_ok raw : has_nl raw = false -> forall inl i, rb (cfc raw) inl i <> [] /\ ends_nl (rb (cfc raw) inl i) = false.
 Proof.
   intros Hnl inl i. rewrite cfc_eq. destruct (starts (s "/*") raw).
-  { destruct (starts (s "/**") raw); unfold rb, comment_rebuild; cbn [ck ctxt cinline].
-    - split; [discriminate|].
-      match goal with |- ends_nl (s "/** " ++ ?x ++ s " */") = false =>
-        change (s "/** " ++ x ++ s " */") with ("/" :: "*" :: "*" :: " " :: x ++ [" "; "*"] ++ ["/"]) end.
-      rewrite app_assoc. rewrite !app_comm_cons. apply ends_nl_last.
-    - split; [discriminate|].
-      match goal with |- ends_nl (s "/* " ++ ?x ++ s " */") = false =>
-        change (s "/* " ++ x ++ s " */") with ("/" :: "*" :: " " :: x ++ [" "; "*"] ++ ["/"]) end.
-      rewrite app_assoc. rewrite !app_comm_cons. apply ends_nl_last. }
+  { destruct (starts (s "/**") raw); unfold rb, comment_rebuild; cbn [ck ctxt cinline]; set (k := if inl then 0 else i).
+    - split; [intros H0; apply app_eq_nil in H0; destruct H0 as [_ H0]; discriminate|].
+      match goal with |- ends_nl (sp k ++ s "/** " ++ ?x ++ s " */") = false =>
+        change (s "/** " ++ x ++ s " */") with ("/" :: "*" :: "*" :: " " :: x ++ [" "; "*"] ++ ["/"]); rewrite (app_assoc x) end.
+      rewrite !app_comm_cons. rewrite (app_assoc (sp k)). apply ends_nl_last.
+    - split; [intros H0; apply app_eq_nil in H0; destruct H0 as [_ H0]; discriminate|].
+      match goal with |- ends_nl (sp k ++ s "/* " ++ ?x ++ s " */") = false =>
+        change (s "/* " ++ x ++ s " */") with ("/" :: "*" :: " " :: x ++ [" "; "*"] ++ ["/"]); rewrite (app_assoc x) end.
+      rewrite !app_comm_cons. rewrite (app_assoc (sp k)). apply ends_nl_last. }
   assert (Hline : forall c, ck c = KLine -> has_nl (comment_str c) = false -> comment_str c <> [] ->
             rb c inl i <> [] /\ ends_nl (rb c inl i) = false).
   { intros c Hk Hn Hne. unfold rb, comment_rebuild. cbn [ck cinline]. rewrite Hk.
